@@ -195,6 +195,20 @@ def run(ctx: Ctx) -> None:
     ml = stmts_matching(pinit, "min_link_latency = _E_")
     okd = okd and any(_is_min_over(b["_E_"], "link.min_latency", "self._links") for _, b in ml)
     ctx.ob("C05-4", "G7", pinit, "default window = min link latency", okd, "without an explicit window the barrier window is the minimum link latency")
+    # every write of the window size is the validated argument or the minimum link latency (never something larger)
+    for st_, b_ in ws:
+        txt = unparse(b_["_E_"]).replace(" ", "")
+        allowed = txt in ("window_sizeifwindow_sizeisnotNoneelsemin_link_latency", "0.0", "min_link_latency", "window_size") or (
+            isinstance(b_["_E_"], ast.Call) and path_of(b_["_E_"].func) == "min" and any(path_of(a) == "min_link_latency" for a in b_["_E_"].args))
+        ctx.ob("C05-4", "G6", pinit, st_, allowed, f"the barrier window is only ever set to the validated window_size or (at most) the minimum link latency — `{norm_stmt(st_)}`"
+               + ("" if allowed else ": this value was never validated against the smallest link latency"))
+    cinit = prog.func(COORD, "WindowedCoordinator.__init__")
+    cws = stmts_matching(cinit, "self._window_size = _E_")
+    ctx.ob("C05-4", "G7", cinit, cws[0][0] if cws else None, len(cws) == 1 and path_of(cws[0][1]["_E_"]) == "window_size", "the coordinator uses exactly the window it was given")
+    for fn_ in [f for f in prog.module(COORD).all_functions if f.cls is not None and f.name != "__init__"]:
+        for st_ in walk_stmts(fn_.node.body):
+            if isinstance(st_, (ast.Assign, ast.AugAssign)) and path_of(st_.targets[0] if isinstance(st_, ast.Assign) else st_.target) == "self._window_size":
+                ctx.ob("C05-4", "G6", fn_, st_, False, "the window size is changed after validation")
     pl = prog.func(LINK, "PartitionLink.__post_init__")
     guard_ok = False
     for st in walk_stmts(pl.node.body):
@@ -235,7 +249,32 @@ def run(ctx: Ctx) -> None:
            "the last window is clamped to end_time", node=clamp[0] if clamp else run_.node)
     rpw = prog.func(COORD, "WindowedCoordinator._run_partition_window")
     c2 = [c for c in calls_in(rpw.node) if isinstance(c.func, ast.Attribute) and c.func.attr == "_run_window"]
-    ok = len(c2) == 1 and unparse(c2[0].func.value).replace(" ", "") == "self._simulations[name]" and [path_of(a) for a in c2[0].args] == ["window_end"]
+    rebinds = [norm_stmt(s_) for s_ in walk_stmts(rpw.node.body) if isinstance(s_, (ast.Assign, ast.AugAssign, ast.AnnAssign))
+               and path_of(s_.targets[0] if isinstance(s_, ast.Assign) else s_.target) in ("window_end", "name")]
+    ok = len(c2) == 1 and unparse(c2[0].func.value).replace(" ", "") == "self._simulations[name]" and [path_of(a) for a in c2[0].args] == ["window_end"] and not rebinds
+    # early termination is decided on the state *after* the exchange
+    brk = [x for x in cff.cfg.nodes if x.kind == "stmt" and isinstance(x.ast, ast.Break)]
+    wl = [s_ for s_ in walk_stmts(run_.node.body) if isinstance(s_, ast.While)]
+    ok_brk = True
+    why_brk = ""
+    for s_ in walk_stmts(wl[0].body) if wl else []:
+        if isinstance(s_, ast.If) and any(isinstance(b, ast.Break) for b in walk_stmts(s_.body)):
+            names = {x.id for x in ast.walk(s_.test) if isinstance(x, ast.Name)}
+            defs = [d for d in walk_stmts(wl[0].body) if isinstance(d, (ast.Assign, ast.AugAssign)) and path_of(d.targets[0] if isinstance(d, ast.Assign) else d.target) in names]
+            src = unparse(s_.test) + " ".join(unparse(d) for d in defs)
+            if "has_events" not in src or "self._simulations" not in src:
+                ok_brk, why_brk = False, f"the exhaustion test `{unparse(s_.test)[:60]}` does not inspect every partition's heap"
+            tn = node_of(cff.cfg, s_.test if not isinstance(s_.test, ast.BoolOp) else s_.test.values[0]) if not isinstance(s_.test, ast.UnaryOp) else None
+            for d in defs:
+                if always_before(ctx, run_, lambda x: x is exn, lambda x, d=d: x.ast is d):
+                    ok_brk, why_brk = False, f"`{norm_stmt(d)}` is computed before the exchange: events delivered at the barrier are not seen"
+            if not defs:
+                # direct inspection in the test: the test itself must come after the exchange
+                tests = [x for x in cff.cfg.nodes if x.kind in ("test",) and any(y is x.ast for y in ast.walk(s_.test))]
+                if any(always_before(ctx, run_, lambda x: x is exn, lambda x, t=t: x is t) for t in tests):
+                    ok_brk, why_brk = False, "the exhaustion test runs before the exchange"
+    ctx.ob("C05-5", "G2", run_, "early termination looks at the heaps after the exchange", ok_brk and bool(wl),
+           "the run may stop early only when every partition heap is empty *after* the barrier exchange (cross-partition events in flight are deliveries too)" + ("" if ok_brk else " — " + why_brk))
     ctx.ob("C05-5", "G7", rpw, c2[0] if c2 else None, ok, "a worker runs exactly its own partition up to the window end")
 
     # ---- C05-6 ownership: every Simulation builds its own Clock and EventHeap; routers installed for every partition
@@ -281,6 +320,10 @@ MUTANTS = [
     ("no-clamp", COORD, "                    if window_end_s > end_s:\n                        window_end_s = end_s\n", "", "C05-5"),
     ("router-linked-both-ways", PSIM, "            linked_from[link.source_partition].update(dest_eids)", "            linked_from[link.dest_partition].update(dest_eids)", "C05-6"),
     ("fast-loop-router-ignored", SIM, "                    new_events = router(new_events, current_time)\n", "                    router(new_events, current_time)\n", "C05-2"),
+]
+MUTANTS += [
+    ("free-running-partitions", COORD, "        t0 = _time.monotonic()\n        self._simulations[name]._run_window(window_end)", "        t0 = _time.monotonic()\n        if name.startswith(\"sink\"):\n            window_end = self._end_time\n        self._simulations[name]._run_window(window_end)", "C05-5"),
+    ("default-window-retiled", PSIM, "            self._window_size = window_size if window_size is not None else min_link_latency\n", "            self._window_size = window_size if window_size is not None else min_link_latency\n            if window_size is None:\n                self._window_size = min_link_latency * 1.03\n", "C05-4"),
 ]
 REFACTORS = [
     ("route-early-continue", ROUT, "            if tid in local_entity_ids:\n                local.append(event)\n            elif tid in linked_entity_ids:", "            if tid in local_entity_ids:\n                local.append(event)\n                continue\n            if tid in linked_entity_ids:"),
